@@ -214,7 +214,7 @@ func isLockRef(t types.Type) bool {
 	if t, ok := t.(*types.Pointer); ok {
 		if t, ok := t.Elem().(*types.Named); ok {
 			name := t.Obj()
-			return name.Pkg().Name() == "sync" &&
+			return name.Pkg() != nil && name.Pkg().Name() == "sync" &&
 				name.Name() == "Mutex"
 		}
 	}
@@ -225,7 +225,7 @@ func isCFMutexRef(t types.Type) bool {
 	if t, ok := t.(*types.Pointer); ok {
 		if t, ok := t.Elem().(*types.Named); ok {
 			name := t.Obj()
-			return name.Pkg().Name() == "cfmutex" &&
+			return name.Pkg() != nil && name.Pkg().Name() == "cfmutex" &&
 				name.Name() == "CFMutex"
 		}
 	}
@@ -236,7 +236,7 @@ func isCondVar(t types.Type) bool {
 	if t, ok := t.(*types.Pointer); ok {
 		if t, ok := t.Elem().(*types.Named); ok {
 			name := t.Obj()
-			return name.Pkg().Name() == "sync" &&
+			return name.Pkg() != nil && name.Pkg().Name() == "sync" &&
 				name.Name() == "Cond"
 		}
 	}
@@ -247,7 +247,7 @@ func isWaitGroup(t types.Type) bool {
 	if t, ok := t.(*types.Pointer); ok {
 		if t, ok := t.Elem().(*types.Named); ok {
 			name := t.Obj()
-			return name.Pkg().Name() == "sync" &&
+			return name.Pkg() != nil && name.Pkg().Name() == "sync" &&
 				name.Name() == "WaitGroup"
 		}
 	}
@@ -258,7 +258,7 @@ func isProphId(t types.Type) bool {
 	if t, ok := t.(*types.Pointer); ok {
 		if t, ok := t.Elem().(*types.Named); ok {
 			name := t.Obj()
-			return (name.Pkg().Name() == "machine" || name.Pkg().Name() == "primitive") &&
+			return name.Pkg() != nil && (name.Pkg().Name() == "machine" || name.Pkg().Name() == "primitive") &&
 				name.Name() == "prophId"
 		}
 	}
@@ -284,7 +284,7 @@ func isString(t types.Type) bool {
 func isDisk(t types.Type) bool {
 	if t, ok := t.(*types.Named); ok {
 		obj := t.Obj()
-		if (obj.Pkg().Path() == "github.com/goose-lang/goose/machine/disk" || obj.Pkg().Path() == "github.com/goose-lang/primitive/disk") &&
+		if obj.Pkg() != nil && (obj.Pkg().Path() == "github.com/goose-lang/goose/machine/disk" || obj.Pkg().Path() == "github.com/goose-lang/primitive/disk") &&
 			obj.Name() == "Disk" {
 			return true
 		}
